@@ -150,6 +150,12 @@ func (d *motionDetector) pixelsChanged(frame *cptvframe.Frame, prevFFC bool) (bo
 
 	if !d.firstDiff {
 		d.firstDiff = true
+		if isAffectedByFFC(frame) || prevFFC {
+			// still in (or directly after) the FFC period: keep moving the comparison
+			// frame along so that nothing is later compared with a frame from the period
+			d.flooredFrames.SetAsOldest()
+			d.firstDiff = false
+		}
 		return false, 0
 	}
 
